@@ -108,11 +108,12 @@ def build_model():
     return True, ""
 
 
-def build_genmodel():
-    """GenExtract.vo -> extract/gen/model.ml -> extract/gen/genmodel (translated definitions)."""
-    gdir = os.path.join(EXTRACT, "gen")
+def build_genmodel(unit):
+    """GenExtract<unit>.vo -> extract/gen/<unit>/model.ml -> extract/gen/<unit>/genmodel (translated definitions)."""
+    gdir = os.path.join(EXTRACT, "gen", unit)
+    os.makedirs(gdir, exist_ok=True)
     binp = os.path.join(gdir, "genmodel")
-    rc, log, _ = make(["GenExtract.vo"])
+    rc, log, _ = make([f"GenExtract{unit}.vo"])
     if rc != 0:
         try:
             os.remove(binp)
@@ -209,8 +210,8 @@ def build_property(pid, cfg, thorough=False):
     ok, mlog = build_model()
     if not ok:
         res["reasons"].append("extracted model does not build: " + mlog[-300:])
-    if cfg.get("units"):
-        ok, glog = build_genmodel()
+    if cfg.get("genextract"):
+        ok, glog = build_genmodel(cfg["genextract"])
         if not ok:
             err = [l for l in glog.splitlines() if "Error" in l or l.startswith("File ")]
             res["reasons"].append("translated definitions do not build/extract: " + " | ".join(err[:3]))
